@@ -183,5 +183,8 @@ Definition wincl_model (v : nsel) (A B : nfa) : bool :=
   | Antichains => wincl_dec (nuseless A) (nuseless B)
   | CongrDepth | CongrBreadth => wequiv_dec (nunion_with d0 d1 (nuseless A) (nuseless B)) (nuseless B)
   end.
+(* operand preparation of the congruence selections before the fix of D6: the union automaton was
+   built by UnionDisjointStates from the operands as given (shared state numbers merge) *)
+Definition wincl_congr_old (A B : nfa) : bool := wequiv_dec (nunion_disjoint_coded A B) (nuseless B).
 (* gate: a reported verdict is the truth *)
 Definition gate_verdict (A B : nfa) (v : bool) : bool := Bool.eqb v (wincl_dec A B).
